@@ -185,11 +185,11 @@ class Documents(SubCheck):
         self.svg = svg
         sizes = SIZES if tier == "thorough" else ["0.01", "3", "100", "10000"]
         vorig = [("0", "0"), ("-5.5", "7.25")]
-        self.p = Product(PARS + WS_PARS, sizes, sizes, sizes, sizes, vorig, SUPPLY + ["nested", "nested-scaled"], [True, False])
+        self.p = Product(PARS + WS_PARS, sizes, sizes, sizes, sizes, vorig, SUPPLY + ["nested", "nested-scaled", "nested-after-failed", "nested-after-deep"], [True, False])
         if tier != "thorough":
             # quick: the full par x supply table on a pairwise-reduced size lattice
             self.p = Product(PARS + WS_PARS, ["0.01", "100"], ["3", "10000"], ["3", "100"], ["0.01", "100"], vorig,
-                             SUPPLY + ["nested", "nested-scaled"], [True, False])
+                             SUPPLY + ["nested", "nested-scaled", "nested-after-failed", "nested-after-deep"], [True, False])
         self.bounds = dict(pars=len(PARS) + len(WS_PARS), supply=SUPPLY)
 
     def size(self):
@@ -215,6 +215,9 @@ class Documents(SubCheck):
             c["ex"], c["ey"] = "10", "10"
             attrs += ['x="10"', 'y="10"']
             post = 2
+        if sup in ("nested-after-failed", "nested-after-deep"):
+            # percentage sizes against the root's viewport, AFTER a sibling svg whose viewport failed / a three-deep chain
+            attrs += ['width="50%"', 'height="25%"']
         if sup in ("attr-num", "nested", "nested-scaled"):
             attrs += ['width="%s"' % c["ew"], 'height="%s"' % c["eh"]]
         elif sup == "attr-unit":
@@ -245,6 +248,13 @@ class Documents(SubCheck):
         rx, ry, rw, rh = F(c["vbx"]) + F(c["vbw"]) / 4, F(c["vby"]) + F(c["vbh"]) / 8, F(c["vbw"]) / 2, F(c["vbh"]) / 4
         doc = '<svg %s><rect x="%s" y="%s" width="%s" height="%s"/></svg>' % (
             " ".join(attrs), float(rx), float(ry), float(rw), float(rh))
+        if sup in ("nested-after-failed", "nested-after-deep"):
+            inner = doc.replace('xmlns="http://www.w3.org/2000/svg" ', "")
+            before = ('<svg width="0" height="10" viewBox="0 0 5 5"><rect width="1" height="1"/></svg>' if sup == "nested-after-failed" else
+                      '<svg width="37" height="19" viewBox="0 0 74 38"><svg width="50%%" height="50%%" viewBox="0 0 7 3">'
+                      '<svg width="4" height="4"><circle r="1"/></svg></svg><circle r="2"/></svg>')
+            doc = '<svg xmlns="http://www.w3.org/2000/svg" width="%r" height="%r">%s%s</svg>' % (
+                float(F(c["ew"]) * 2), float(F(c["eh"]) * 4), before, inner)
         if sup == "nested-scaled":
             inner = doc.replace('xmlns="http://www.w3.org/2000/svg" ', "")
             doc = '<svg xmlns="http://www.w3.org/2000/svg" width="200" height="200" viewBox="0 0 100 100">%s</svg>' % inner
